@@ -106,6 +106,13 @@ for modname, fns in (("dask_array.reductions._reduction", ("_accept_slice_impl",
         if fn in m.functions:
             add("C02", m.functions[fn], ("return None", "return False", "return True", "raise"), why="helper of a rewrite hook declines under this condition")
 
+# ---- C07: the package's own tokenizer for callables/types (process-independent tokens) ----------------
+dm = repo.mod("dask_array._dispatch")
+add("C07", dm.func("_importable_ref"), ("return None", "return"), why="a callable/type is tokenized by (module, qualname) reference only when that reference denotes the same object in every process; each decline falls back to pickle-by-value")
+for fn in ("_normalize_type", "_normalize_function", "_normalize_builtin", "_normalize_ufunc", "_normalize_array_function_dispatcher", "_normalize_masked_array"):
+    if fn in dm.functions:
+        add("C07", dm.functions[fn], ("return",), why="registered tokenizer: reference token or the by-value fallback")
+
 os.makedirs(os.path.dirname(FIXTURE), exist_ok=True)
 with open(FIXTURE, "w") as fh:
     json.dump(out, fh, indent=1, sort_keys=True)
